@@ -523,6 +523,10 @@ def check_homogeneous(ck, F, S):
         for pi, (st, _k, v) in enumerate(outs):
             inst = inst0 if len(outs) == 1 else f'{inst0} [path {pi}: {contracts.render_conds(st.conds, st, {})[:90]}]'
             root = v[1] if v[0] == 'addr' else v
+            if not (isinstance(root, tuple) and root[:1] == ('obj',) and root[1] in st.heap):
+                ck.fail(R, inst, f'{inst}: answers with `{contracts.render(v, st, {})[:80]}`, a member that was already there, instead of entering a new one',
+                        loc=f['loc'], fn=fid)
+                continue
             if inst0 == 'Block::new_handler':
                 # the declaration is the handler's exception parameter
                 ehs = [oid for oid, o in st.heap.items() if o.cls == 'ipr::impl::EH_parameter']
